@@ -16,7 +16,7 @@ CHECKS = {
         "modules": ["PGV.Props.C02"], "audits": ["PGV/Audit/C02.lean"],
         "streams": ["walk", "flat"], "thorough_seeds": 4,
         "assumptions": WALK_ASSUME,
-        "explanation": "theorems: every walker function only appends (frame theorem by mutual structural induction over value trees), outputs concatenate in declaration / index / rule order, one rule item = one step of the loop and the loop always continues, nil iff nothing written, exactly one trailing separator removed; streams walk/flat compare the WHOLE error string of Struct/Var/Map/Url calls on synthesised types with the model",
+        "explanation": "theorems: every walker function only appends (frame theorem by mutual structural induction over value trees), outputs concatenate in declaration / index / rule order, one rule item = one step of the loop and the loop always continues, closed forms of both rule loops (exactly one contribution per rule item, in rule order, independent of what was written before), nil iff nothing written, exactly one trailing separator removed; streams walk/flat compare the WHOLE error string of Struct/Var/Map/Url calls on synthesised types with the model",
     },
     "C03": {
         "modules": ["PGV.Props.C03"], "audits": ["PGV/Audit/C03.lean"],
@@ -110,7 +110,7 @@ CHECKS["C20"] = {
         "Go map iteration order is unobservable: any order of map entries is accepted",
         "that Spec.Json.doc is the document encoding/json produces is not a theorem: the harness decodes the implementation's output and the standard encoding with encoding/json and compares the documents (independent oracle)",
     ],
-    "explanation": "C20_dump_is_print: for every in-scope value of any shape and depth the model of the dumper writes exactly print(doc v) (mutual structural induction); stream dump compares GetDumpStructStr byte for byte with the model and, independently, as decoded JSON with the standard encoder's output",
+    "explanation": "C20_dump_is_print: for every in-scope value of any shape and depth the model of the dumper writes exactly print(doc v) (mutual structural induction); C20_parse_print / C20_output_parses: an independent JSON reader reads that text back as the document (round trip, mutual induction), C20_integers_wellformed; stream dump compares GetDumpStructStr byte for byte with the model and, independently, as decoded JSON with the standard encoder's output",
 }
 
 INJ_ASSUME = [
@@ -138,7 +138,7 @@ CHECKS["C05"] = {
         "the documented language of each rule is the table in lean/PGV/Spec/Lang.lean (DESIGN.md §6 C05); date separators are judged when they are plain punctuation (sepOK); empty options, several rule items in one text and residual rules (ip, json, re, file, dir) get no spec verdict",
         "Go's regexp implements the usual leftmost semantics for the transcribed patterns; time.Parse + Format for numeric layouts is the standard library's (residual)",
     ],
-    "explanation": "T2_patterns (the regular expressions in the source are the transcribed ones, re-decided every run); C05_int / C05_phone (model recogniser = independent recogniser for every byte string), C05_timefmt_* (layout = components interleaved with the separators, all separators), C05_date_uses_layout, C05_unique_string, C05_prefix_suffix; stream lang: every rule on members, single-rune edits and random strings through Var/Struct/Map/Url, the verdict judged against Spec.Lang",
+    "explanation": "T2_patterns (the regular expressions in the source are the transcribed ones, re-decided every run); C05_int / C05_phone / C05_float / C05_idcard / C05_email (model recogniser = independent recogniser for every byte string), C05_accepts_sound (the eleven residual-free rules: registered function writes a clause iff Spec.Lang.accepts says outside, every rule text of the documented shape, every string), C05_in_canonical_rendering / C05_unique_canonical_rendering / C05_ints_slice (numbers and slices judged through ToStr renderings), C05_timefmt_* (layout = components interleaved with the separators, all separators), C05_date_uses_layout, C05_unique_string, C05_prefix_suffix; stream lang: every rule on members, single-rune edits and random strings through Var/Struct/Map/Url, the verdict judged against Spec.Lang",
 }
 
 CONC_ASSUME = [
